@@ -3,12 +3,17 @@
 package main
 
 import (
+	"strings"
+
 	"bfeverif/harness/cmd/c07/sim"
 	"bfeverif/harness/internal/vh"
 )
 
 func gen(r *vh.Rand) string {
-	k := sim.Knobs{MaxReqs: 4, Interleave: true, FinishPct: 12, ErrPct: 55}
+	if r.Chance(1, 8) {
+		return sim.GenProxy(r) // websocket / stream proxy bookkeeping (second op stream)
+	}
+	k := sim.Knobs{MaxReqs: 4, Interleave: true, FinishPct: 12, ErrPct: 55, ReplacePct: 10}
 	switch r.Intn(6) {
 	case 0:
 		k.MaxReqs, k.Interleave = 1, false
@@ -20,4 +25,11 @@ func gen(r *vh.Rand) string {
 	return sim.Gen(r, k).String()
 }
 
-func main() { vh.Main(gen, sim.Exec) }
+func exec(op string) string {
+	if strings.HasPrefix(op, "px/") {
+		return sim.ExecProxy(op)
+	}
+	return sim.Exec(op)
+}
+
+func main() { vh.Main(gen, exec) }
